@@ -43,6 +43,7 @@ MUT = {
  "m40": ("internal/pfcp/transaction.go", "\t\t\trx.server.NotifyTransTimeout(RX, rx.id)", "\t\t\trx.handleTimeout()"),
  "m41": ("internal/pfcp/pfcp.go", "\tREPORT_CHANNEL_LEN        = 128", "\tREPORT_CHANNEL_LEN        = 16"),
  "m42": ("internal/forwarder/perio/server.go", "\tEVENT_CHANNEL_LEN = 512", "\tEVENT_CHANNEL_LEN = 64"),
+ "m44": ("internal/forwarder/gtp5g.go", "\toid := gtp5gnl.OID{lSeid, uint64(v)}\n\treturn gtp5gnl.RemoveQEROID(g.client, g.link.link, oid)", "\toid := gtp5gnl.OID{lSeid, uint64(v)}\n\t_ = oid\n\treturn nil"),
  "m43": ("internal/pfcp/pfcp.go", "\tselect {\n\tcase s.trToCh <- TransactionTimeout{TrType: trType, TrID: trID}:\n\tcase <-s.done:\n\t}", "\ts.trToCh <- TransactionTimeout{TrType: trType, TrID: trID}"),
 }
 name = sys.argv[1]
